@@ -246,6 +246,29 @@ fn mailbox_coverage(out: &mut Out) {
     out.extra.insert("replicated_actor_and_front_end_coverage(derived from the source)".into(), json!(table));
 }
 
+/// the coverage self-audit of C08 against the eleven classes (DESIGN.md §4 C08)
+fn audit() -> serde_json::Value {
+    json!([
+      {"class": 1, "topic": "entry path / variant never driven",
+       "covered": "every place of the anchored files that creates or advances a stamp is counted in the source and matched with the model's op table (C08:coverage:stamp-site-not-modelled:*); every mailbox message of the replicated shard actor and every pub fn of ReplicatedShardedState is enumerated from the source, driven or explained, and the driven ones must have run in THIS run (C08:coverage:not-driven-in-this-run:*) — new: ExecuteReadonly, EvictExpired, DrainPendingDeltas, evict_expired_all_shards, key_count; every Command variant through the actor and through the state (as before)",
+       "open": "evict_expired_all_shards has no caller in the binaries: on a replicated node the executor's clock never moves (a TTL never fires) — recorded as an observation, time-dependent reads are outside C08"},
+      {"class": 2, "topic": "input alphabet", "covered": "values empty / binary; keys incl. non-ASCII; SET with and without EX; hashes with 1..2 fields; remote values of both kinds incl. tombstones", "open": ""},
+      {"class": 3, "topic": "comparison at equality",
+       "covered": "remote stamps below / at / above the local clock (times drawn around it), equal times from other replicas, the Lamport time at the top of the u64 range (MAX-3 … MAX: update and tick overflow — known finding C08:clock:u64-overflow; below the bound clock_u64_exact)",
+       "open": ""},
+      {"class": 4, "topic": "configuration", "covered": "consistency level Eventual / Causal (vector clock on / off); checkpoint through the real CheckpointWriter / Reader or handed over directly", "open": ""},
+      {"class": 5, "topic": "capacity thresholds", "covered": "the outbox capacity is C06's message level; 16 shards with separate clocks (keys on one shard / on several)", "open": ""},
+      {"class": 6, "topic": "fault kinds", "covered": "a panic inside the clock arithmetic is caught and is the finding; recovery that hands back only part of the state (own maximum legitimately gone); a command rejected by the executor", "open": ""},
+      {"class": 7, "topic": "history shapes",
+       "covered": "restart over every split of the history into checkpoint + deltas, checkpoint only, deltas only, deltas OVERLAPPING the checkpoint (a WAL that was not truncated), deltas in another order than issued, own deltas replayed through apply_remote_delta, FLUSHALL in the middle, second restart, writes after every recovery",
+       "open": ""},
+      {"class": 8, "topic": "node-global state", "covered": "the shard's Lamport clock is shared by all its keys: keys of one shard and of different shards; the vector clock in causal mode", "open": ""},
+      {"class": 9, "topic": "observations", "covered": "the stamp of every delta handed back, full snapshots, what a peer holding everything serves after merging the post-restart write, that non-writing mailbox messages leave the replication state alone", "open": ""},
+      {"class": 10, "topic": "finding signatures", "covered": "stale stamps are signed by the provenance of the stamp that was not exceeded (local / remote / recovered-checkpoint / recovered-delta); the overflow finding fires only in the boundary case", "open": ""},
+      {"class": 11, "topic": "harness fragility", "covered": "coverage counters must be positive in the run that claims them; source scans that fail or come out short are violations; the arithmetic of the build (checked / wrapping) is observed, not assumed", "open": ""}
+    ])
+}
+
 pub fn run(a: &Args) {
     let mut out = Out::new(&a.out);
     let mut rng = Rng::new(a.seed);
@@ -310,6 +333,7 @@ pub fn run(a: &Args) {
         out.extra.insert("command_variants_through_replicated_actor".into(), json!(rows));
         out.extra.insert("command_variants_total".into(), json!(rows.len()));
     }
+    out.extra.insert("audit".into(), audit());
     out.finish("case = one node history of 5..40 ops on a real ReplicatedShardActor: local SET[EX]/DEL/HSET/HDEL on 3 colliding keys, any other Command variant (every variant of the enum goes through the actor at least once per run: replicated writers, non-replicated writers, FLUSHDB/FLUSHALL and other key-less commands, reads — coverage table in the evidence), remote deltas (dominated values from peers 2,3 with times around the local clock), snapshots, restarts that recover the snapshot as checkpoint values (ApplyRecoveredState) or as deltas or a subset; distinct by the op text of the history; non-trivial iff it contains an effective local write issued after a remote/recovered value of the same key. System-level case = one history of 3..12 ops (SET[EX]/DEL/HSET/HDEL/INCR on 6 keys over 4 of the 16 shards, gossip from a peer) on a real ReplicatedShardedState, then for every split point: fresh state, apply_recovered_state(checkpoint at the split [half of them through the real CheckpointWriter/Reader], own deltas after it), 3..5 writes, full snapshot; non-trivial iff some post-restart write lands on a shard that recovered something");
 }
 
